@@ -686,7 +686,7 @@ func TestC07(t *testing.T) {
 		go worker(os.Getenv("VERIF_BIN_RACE"), "race", fmt.Sprintf("race%d", c), fw.N(8, 200)*c, fw.N(8, 200)*(c+1), true, nil)
 	}
 	wg.Wait()
-	code := run.Finish("child processes host a real stack (listener, established connection, bound UDP socket, IPv4+IPv6+ARP); every batch of frames is written to disk before it is injected and the index of each frame is logged first, so a process death names the frame. Frames: valid ARP / echo / NDP / UDP / SYN with option soup / in- and near-window segments with all flag sets / fragments / ICMP errors quoting the stack's packets / IPv6 fragment headers, put through 1-3 structure-aware mutations (truncate anywhere, length/offset/flag bytes and 16-bit fields set to edge values, bit flips, splices, noise, wrong ethertype) plus pure noise of every length 0..128; exhaustive small scope: all IPv4 fragment pairs (and a subset of triples) over offsets {0,8,16,65528} x lengths {0,1,8,9,16} x MF. One child receives megabytes of self-contradictory fragment sets. After each batch, in virtual time: one matching echo reply, a new TCP handshake accepted with its data readable, a UDP datagram delivered intact, and a UDP datagram delivered from three fragments. Also: the fd-based Ethernet link over a socketpair in real time (runt frames 0..20 bytes; echo probe; the link's close callback), and the barrage from 4 goroutines under the race detector. distinct = batches",
+	code := run.Finish("child processes host a real stack (listener, established connection, bound UDP socket, IPv4+IPv6+ARP); every batch of frames is written to disk before it is injected and the index of each frame is logged first, so a process death names the frame. Frames: valid ARP / echo / NDP / UDP / SYN with option soup / in- and near-window segments with all flag sets / fragments / ICMP errors quoting the stack's packets / IPv6 fragment headers, put through 1-3 structure-aware mutations (truncate anywhere, length/offset/flag bytes and 16-bit fields set to edge values, bit flips, splices, noise, wrong ethertype) plus pure noise of every length 0..128; exhaustive small scope: all IPv4 fragment pairs (and a subset of triples) over offsets {0,8,16,65528} x lengths {0,1,8,9,16} x MF. One child receives megabytes of self-contradictory fragment sets. After each batch, in virtual time: one matching echo reply, a new TCP handshake accepted with its data readable, a UDP datagram delivered intact, and a UDP datagram delivered from three fragments. Also: the fd-based Ethernet link over a socketpair in real time (runt frames 0..20 bytes; echo probe; the link's close callback), and the barrage from 4 goroutines under the race detector. distinct = batches Later additions: Bare ACKs to the listener with arbitrary acknowledgement numbers (forged SYN cookies); half of each batch arrives 31 virtual seconds after the other half. One child receives hundreds of self-contradictory fragment sets (large, small, tiny); every probe round also needs a 2.4 KB datagram delivered from three fragments.",
 		[]string{"a panic/fatal whose innermost non-runtime frame is under /repo is a violation keyed by that file; a watchdog expiry is inconclusive", "probes use fresh ports and drain queues first, so a legitimately reset or filled connection does not count against the stack"})
 	os.Exit(code)
 }
